@@ -192,6 +192,13 @@ func (s *V2SessionlessTransport) newV2Session(ctx context.Context, opts *V2Sessi
 	if err != nil {
 		return nil, err
 	}
+	if cipherLayer == nil {
+		// no confidentiality: the session's send and receive paths always
+		// run a confidentiality layer, so this cannot be honoured (it used to
+		// panic below)
+		return nil, fmt.Errorf("unsupported confidentiality algorithm: %v",
+			openSessionRsp.ConfidentialityPayload.Algorithm)
+	}
 
 	sess := &V2Session{
 		v2ConnectionShared:             &s.v2ConnectionShared,
